@@ -718,6 +718,9 @@ def trace_TypeCast(node: qlast.TypeCast, *, ctx: TracerContext) -> None:
             typename: sn.QualName = ctx.get_ref_name(node.type.maintype)
             check_type_exists(typename, ctx, node.type.span)
             ctx.refs.add(typename)
+        else:
+            # a cast to a collection depends on its element types
+            trace(node.type, ctx=ctx)
 
 
 @trace.register
